@@ -225,13 +225,15 @@ func genRollingStrategy(r *rand.Rand, n int) edsv1.ExtendedDaemonSetSpecStrategy
 	default:
 		ru.MaxUnavailable = ios(intstr.FromInt(2))
 	}
-	switch r.Intn(6) {
+	switch r.Intn(8) {
 	case 0:
 		ru.MaxPodSchedulerFailure = ios(intstr.FromInt(1 + r.Intn(3)))
 	case 1:
 		ru.MaxPodSchedulerFailure = ios(intstr.FromString(fmt.Sprintf("%d%%", r.Intn(60))))
 	case 2:
 		ru.MaxPodSchedulerFailure = ios(intstr.FromString(pick(r, "x%", "20%")))
+	case 3:
+		ru.MaxPodSchedulerFailure = ios(pick(r, intstr.FromInt(-1), intstr.FromString("-20%")))
 	}
 	switch r.Intn(5) {
 	case 0:
@@ -239,12 +241,13 @@ func genRollingStrategy(r *rand.Rand, n int) edsv1.ExtendedDaemonSetSpecStrategy
 	case 1:
 		ru.SlowStartAdditiveIncrease = ios(intstr.FromString(fmt.Sprintf("%d%%", 1+r.Intn(60))))
 	case 2:
-		ru.SlowStartAdditiveIncrease = ios(intstr.FromInt(0))
+		// zero and negative values are accepted by the CRD schema (IntOrString / int32 without minimum)
+		ru.SlowStartAdditiveIncrease = ios(pick(r, intstr.FromInt(0), intstr.FromInt(-1), intstr.FromInt(-3), intstr.FromString("-10%")))
 	default:
 		ru.SlowStartAdditiveIncrease = ios(intstr.FromInt(1 + r.Intn(n+2)))
 	}
 	if r.Intn(3) == 0 {
-		ru.MaxParallelPodCreation = edsv1.NewInt32(int32(r.Intn(4)))
+		ru.MaxParallelPodCreation = edsv1.NewInt32(int32(pick(r, 0, 1, 2, 3, -1, -2)))
 	}
 	ru.SlowStartIntervalDuration = &metav1.Duration{Duration: time.Duration(30+r.Intn(90)) * time.Second}
 	return s
